@@ -57,7 +57,7 @@ impl<L> Thread<Comment<L>> {
     { unimplemented!() }
 }
 pub mod thread { #[derive(Debug)] pub struct Error; }
-pub struct Doc;
+pub struct Doc { pub opaque: u64 }
 pub struct DocAt { pub doc: Doc }
 impl std::ops::Deref for DocAt { type Target = Doc; fn deref(&self) -> (r: &Doc) ensures *r == self.doc { &self.doc } }
 pub uninterp spec fn delegate(doc: Doc, did: Did) -> bool;
